@@ -251,8 +251,15 @@ def main(prop, tier, seed, replay=None):
         results = [_run_shard(a) for a in args]
     else:
         ctx = multiprocessing.get_context('fork')
+        limit = float(os.environ.get('VERIF_TIMEOUT_S') or (3600 if tier == 'quick' else 12 * 3600))
         with ctx.Pool(n) as pool:
-            results = pool.map(_run_shard, args, chunksize=1)
+            try:
+                results = pool.map_async(_run_shard, args, chunksize=1).get(timeout=limit)
+            except multiprocessing.TimeoutError:
+                # a time budget hit means "inconclusive", never a violation
+                print(f'HARNESS ERROR: no result within {limit:.0f} s (inconclusive)', file=sys.stderr)
+                pool.terminate()
+                return 2
     errors = [r for r in results if 'error' in r]
     if errors:
         for r in errors[:3]:
